@@ -4,13 +4,16 @@
 cd /verif/go || exit 1
 cp /repo/go.sum go.sum
 GOFLAGS=-mod=mod GOPROXY=off go run ./cmd/factgen /repo /verif/lean/Generated/Facts.lean
+# regenerate the SSA translation of the straight-line part of xmath/num (second tie of C01)
+(cd /verif/gossa && GOFLAGS=-mod=mod GOPROXY=off go run . /repo /verif/lean/Generated/SSA_Num.lean >/dev/null) || echo "setup: ssagen failed (the C01 check will report it)"
 cd /verif/lean || exit 1
 for f in Props/C[0-9][0-9].lean; do
   [ -f "$f" ] || continue
   id=$(basename "$f" .lean)
   n=$(echo "$id" | tr 'C' 'c')
   if [ -f "Driver/$id.lean" ]; then
-    lake build "Props.$id" "drv_$n" || echo "setup: lake build Props.$id drv_$n failed (the check will report it)"
+    extra=""; [ -f "Props/${id}Gen.lean" ] && extra="Props.${id}Gen"
+    lake build "Props.$id" $extra "drv_$n" || echo "setup: lake build Props.$id drv_$n failed (the check will report it)"
   else
     lake build "Props.$id" || echo "setup: lake build Props.$id failed"
   fi
